@@ -8,11 +8,11 @@ import (
 
 // weights of the op kinds of a generated history (intent-encoded: every op is valid in every state)
 type hWeights struct {
-	deliver, ack, ackidx, save, savefail, savebegin, saveend, crash, rebalance, ackold, end int
-	absorbed                                                                                int // percentage of deliveries that are non-document / internal-key events
-	outside                                                                                 int // per-mille of deliveries placed outside their snapshot (C06)
-	reopenFail                                                                              int // per-mille of transient ends whose first reopen attempt is refused
-	maxVb, minOps, maxOps                                                                   int
+	deliver, ack, ackidx, save, savefail, savebegin, saveend, crash, rebalance, ackold, end, scrape int
+	absorbed                                                                                        int // percentage of deliveries that are non-document / internal-key events
+	outside                                                                                         int // per-mille of deliveries placed outside their snapshot (C06)
+	reopenFail                                                                                      int // per-mille of transient ends whose first reopen attempt is refused
+	maxVb, minOps, maxOps                                                                           int
 }
 
 var absorbedKinds = []string{"cc", "cd", "cf", "sc", "sd", "cm", "adv", "adv", "ikey", "txn"}
@@ -43,6 +43,7 @@ func genHistory(t *rapid.T, w hWeights) hScenario {
 	add("rebalance", w.rebalance)
 	add("ackold", w.ackold)
 	add("end", w.end)
+	add("scrape", w.scrape)
 	opGen := rapid.Custom(func(t *rapid.T) hOp {
 		k := rapid.SampledFrom(kinds).Draw(t, "op")
 		op := hOp{Op: k}
@@ -82,6 +83,7 @@ func genHistory(t *rapid.T, w hWeights) hScenario {
 			op.N = sc.Lo + rapid.IntRange(-2, 3).Draw(t, "newlo")
 			op.Gap = rapid.IntRange(0, 3).Draw(t, "size")
 			op.Fail = rapid.Bool().Draw(t, "ackWhileClosed")
+			op.AtL = rapid.Bool().Draw(t, "scrapeWhileClosed")
 			op.Snap = rapid.IntRange(0, 9).Draw(t, "which")
 		case "ackold":
 			op.N = rapid.IntRange(0, 63).Draw(t, "i")
